@@ -56,7 +56,13 @@ def label(nodes, prefix, counter=None):
         elif k == "Fill":
             out.append(("Fill", n[1], n[2], n[3], label(n[4], prefix, counter)))
         elif k == "Prov":
-            out.append(("Prov", n[1], n[2], label(n[3], prefix, counter)))
+            kwargs = n[2]
+            if kwargs is None:  # unique provided value per provide tag
+                counter[0] += 1
+                kwargs = (("v", "'%s%s%d'" % (n[1], prefix, counter[0])),)
+                if n[1] == "m":
+                    kwargs += (("w", "'w'"),)
+            out.append(("Prov", n[1], kwargs, label(n[3], prefix, counter)))
         elif k == "El":
             counter[0] += 1
             out.append(("El", n[1], f"{prefix}{counter[0]}", label(n[3], prefix, counter)))
@@ -396,7 +402,7 @@ class Interp:
             elif d[0] == "inject":
                 _, key, field, default = d
                 if key in prov:
-                    data[name] = prov[key].get(field, MISSING) if field else sorted(prov[key].keys())
+                    data[name] = prov[key].get(field, MISSING) if field else ",".join(sorted(prov[key].keys()))
                 elif default is not None:
                     data[name] = default
                 else:
@@ -524,7 +530,7 @@ def build_component_class(spec, dynamic=False, extra_attrs=None, module="verif_p
                         continue
                 else:
                     v = self.inject(key)
-                data[name] = getattr(v, field, "") if field else sorted(v._fields)
+                data[name] = getattr(v, field, "") if field else ",".join(sorted(v._fields))
             elif d[0] == "id":
                 data[name] = "%s" % self.id
         return data
